@@ -4,17 +4,19 @@
 EXTENDS Decode
 
 AllEntries == {"Decode", "DecodeTiff", "DecodeCR2", "DecodeHeif", "DecodeJPEG", "DecodePng", "DecodeCR3", "PreviewCR3"}
-AllKinds == {"jpeg0", "jpeg1", "jpeg2", "tiff", "tiffBE", "cr2", "rw2", "cr3", "cr3split", "avif", "heif", "heif0",
+AllKinds == {"jpeg0", "jpeg1", "jpeg2", "jpegxe", "jpegex", "tiff", "tiffBE", "cr2", "rw2", "cr3", "cr3split", "avif", "heif", "heif0",
              "png1", "png0", "gif", "bmp", "webp", "crw", "psd", "xmp", "ppm", "unknown", "short"}
 
-MCTypeOf(k) == CASE k \in {"jpeg0", "jpeg1", "jpeg2"} -> "JPEG" [] k \in {"tiff", "tiffBE"} -> "TIFF" [] k = "cr2" -> "CR2"
+MCTypeOf(k) == CASE k \in {"jpeg0", "jpeg1", "jpeg2", "jpegxe", "jpegex"} -> "JPEG" [] k \in {"tiff", "tiffBE"} -> "TIFF" [] k = "cr2" -> "CR2"
                  [] k = "rw2" -> "PanaRAW" [] k \in {"cr3", "cr3split"} -> "CR3" [] k = "avif" -> "AVIF"
                  [] k \in {"heif", "heif0"} -> "HEIF" [] k \in {"png1", "png0"} -> "PNG" [] k = "gif" -> "GIF" [] k = "bmp" -> "BMP"
                  [] k = "webp" -> "WebP" [] k = "crw" -> "CRW" [] k = "psd" -> "PSD" [] k = "xmp" -> "XMP" [] k = "ppm" -> "PPM"
                  [] k = "unknown" -> "Unknown" [] k = "short" -> "Short"
 \* a TIFF signature occurs somewhere in the file (the search runs to the end of the stream)
-MCHasSig(k) == k \in {"jpeg1", "jpeg2", "tiff", "tiffBE", "cr2", "cr3", "cr3split", "avif", "heif", "png1"}
-MCExifSegs(k) == CASE k = "jpeg1" -> 1 [] k = "jpeg2" -> 2 [] OTHER -> 0
+MCHasSig(k) == k \in {"jpeg1", "jpeg2", "jpegxe", "jpegex", "tiff", "tiffBE", "cr2", "cr3", "cr3split", "avif", "heif", "png1"}
+\* jpegxe / jpegex: an APP1 XMP packet before / after the Exif segment; the entry points pass no XMP callback, so the
+\* packet is skipped like any other segment and the history is that of jpeg1
+MCExifSegs(k) == CASE k \in {"jpeg1", "jpegxe", "jpegex"} -> 1 [] k = "jpeg2" -> 2 [] OTHER -> 0
 MCCmts(k) == CASE k = "cr3" -> 1 [] k = "cr3split" -> 3 [] OTHER -> 0
 MCHasPrev(k) == k \in {"cr3", "cr3split"}
 MCPngExif(k) == k = "png1"
